@@ -20,6 +20,12 @@ Ltac split_matches :=
          | |- context [match ?X with _ => _ end] => destruct X eqn:?
          end.
 
+(* (r0, x0) = (r, x') as two equations, without [injection] (slow on these terms) *)
+Ltac pair_eq :=
+  let Hh := fresh "Hp" in let H1 := fresh "Hp1" in let H2 := fresh "Hp2" in
+  intros Hh; pose proof (f_equal fst Hh) as H1; pose proof (f_equal snd Hh) as H2; cbn [fst snd] in H1, H2;
+  clear Hh; try subst.
+
 Ltac outside_tac :=
   let j := fresh "j" in let Hj := fresh "Hj" in
   intros j Hj; cbn [c_accts]; cbn [In] in Hj;
@@ -35,7 +41,7 @@ Section BaseFrame.
     call_write ar e x k v = (r, x') ->
     c_xfers x' = c_xfers x /\ c_next x' = c_next x /\ outside [e_self e] x x'.
   Proof.
-    unfold call_write. split_matches; intros [= <- <-]; cbn [c_xfers c_next];
+    unfold call_write. split_matches; pair_eq; cbn [c_xfers c_next];
       (split; [reflexivity | split; [reflexivity | try apply outside_refl; outside_tac]]).
   Qed.
 
@@ -43,7 +49,7 @@ Section BaseFrame.
     call_solicit ar e x h z = (r, x') ->
     c_xfers x' = c_xfers x /\ c_next x' = c_next x /\ outside [e_self e] x x'.
   Proof.
-    unfold call_solicit. split_matches; intros [= <- <-]; cbn [c_xfers c_next];
+    unfold call_solicit. split_matches; pair_eq; cbn [c_xfers c_next];
       (split; [reflexivity | split; [reflexivity | try apply outside_refl; outside_tac]]).
   Qed.
 
@@ -51,7 +57,7 @@ Section BaseFrame.
     call_forget e x h z = (r, x') ->
     c_xfers x' = c_xfers x /\ c_next x' = c_next x /\ outside [e_self e] x x'.
   Proof.
-    unfold call_forget. split_matches; intros [= <- <-]; cbn [c_xfers c_next];
+    unfold call_forget. split_matches; pair_eq; cbn [c_xfers c_next];
       (split; [reflexivity | split; [reflexivity | try apply outside_refl; outside_tac]]).
   Qed.
 
@@ -59,7 +65,7 @@ Section BaseFrame.
     call_upgrade e x c g m = (r, x') ->
     c_xfers x' = c_xfers x /\ c_next x' = c_next x /\ outside [e_self e] x x'.
   Proof.
-    unfold call_upgrade. split_matches; intros [= <- <-]; cbn [c_xfers c_next];
+    unfold call_upgrade. split_matches; pair_eq; cbn [c_xfers c_next];
       (split; [reflexivity | split; [reflexivity | try apply outside_refl; outside_tac]]).
   Qed.
 
@@ -68,7 +74,7 @@ Section BaseFrame.
     (c_xfers x' = c_xfers x \/ c_xfers x' = c_xfers x ++ [mkXfer (e_self e) d amt memo l])
     /\ c_next x' = c_next x /\ outside [e_self e] x x'.
   Proof.
-    unfold call_transfer. split_matches; intros [= <- <-]; cbn [c_xfers c_next];
+    unfold call_transfer. split_matches; pair_eq; cbn [c_xfers c_next];
       (split; [tauto | split; [reflexivity | try apply outside_refl; outside_tac]]).
   Qed.
 
@@ -76,7 +82,7 @@ Section BaseFrame.
     call_eject ar e x d h = (r, x') ->
     c_xfers x' = c_xfers x /\ c_next x' = c_next x /\ outside [e_self e; d] x x'.
   Proof.
-    unfold call_eject. split_matches; intros [= <- <-]; cbn [c_xfers c_next];
+    unfold call_eject. split_matches; pair_eq; cbn [c_xfers c_next];
       (split; [reflexivity | split; [reflexivity | try apply outside_refl; outside_tac]]).
   Qed.
 
@@ -84,10 +90,41 @@ Section BaseFrame.
     call_new ar e x c l g m f i = (r, x') ->
     c_xfers x' = c_xfers x /\ outside [e_self e; i; c_next x] x x'.
   Proof.
-    unfold call_new. split_matches; intros [= <- <-]; cbn [c_xfers c_next];
+    unfold call_new. split_matches; pair_eq; cbn [c_xfers c_next];
       (split; [reflexivity | try apply outside_refl; outside_tac]).
   Qed.
 End BaseFrame.
+
+(* which return value accompanies a changed context *)
+Section BaseRet.
+  Variable ar : arith.
+  Variable e : env.
+
+  Lemma call_write_ret x k v r x' :
+    call_write ar e x k v = (r, x') ->
+    x' = x \/ r = RNone \/
+    exists s ov, get (e_self e) (c_accts x) = Some s /\ al_get bytes_eqb k (a_storage s) = Some ov /\ r = RVal (blen ov).
+  Proof.
+    unfold call_write. split_matches; pair_eq; first [ left; reflexivity | right; left; reflexivity | right; right; eauto ].
+  Qed.
+
+  Lemma call_new_ret x c l g m f i r x' :
+    call_new ar e x c l g m f i = (r, x') -> x' = x \/ (r = RVal i /\ i < Smin) \/ r = RVal (c_next x).
+  Proof.
+    unfold call_new. split_matches; pair_eq; first [ left; reflexivity | right; right; reflexivity | idtac ].
+    right. left. split; [reflexivity |].
+    match goal with Hb : _ && (i <? Smin) = true |- _ => apply andb_prop in Hb as [_ Hb]; apply N.ltb_lt in Hb; exact Hb end.
+  Qed.
+
+  Lemma call_upgrade_ret x c g m r x' : call_upgrade e x c g m = (r, x') -> x' = x \/ r = ROk.
+  Proof. unfold call_upgrade. split_matches; pair_eq; tauto. Qed.
+  Lemma call_eject_ret x d h r x' : call_eject ar e x d h = (r, x') -> x' = x \/ r = ROk.
+  Proof. unfold call_eject. split_matches; pair_eq; tauto. Qed.
+  Lemma call_solicit_ret x h z r x' : call_solicit ar e x h z = (r, x') -> x' = x \/ r = ROk.
+  Proof. unfold call_solicit. split_matches; pair_eq; tauto. Qed.
+  Lemma call_forget_ret x h z r x' : call_forget e x h z = (r, x') -> x' = x \/ r = ROk.
+  Proof. unfold call_forget. split_matches; pair_eq; tauto. Qed.
+End BaseRet.
 
 (* ------------------------------------------------------------------------------------------ *)
 (* the common shape of a call *)
@@ -109,3 +146,555 @@ Ltac hc_split :=
          | |- context [if ?b then _ else _] => destruct b eqn:?
          | |- context [match ?x with _ => _ end] => destruct x eqn:?
          end.
+
+Lemma setreg7_len v rg : length rg = 13%nat -> length (setreg 7 v rg) = 13%nat.
+Proof. intros L. rewrite setreg_length; lia. Qed.
+Lemma setreg78_len v w rg : length rg = 13%nat -> length (setreg 8 w (setreg 7 v rg)) = 13%nat.
+Proof. intros L. rewrite setreg_length; rewrite setreg7_len; lia. Qed.
+
+Ltac regs_tac L :=
+  cbn [finish r_regs];
+  split;
+  [ first [ exact L | apply setreg7_len; exact L | apply setreg78_len; exact L ]
+  | let i := fresh "i" in let H7 := fresh "H7" in let H8 := fresh "H8" in
+    intros i H7 H8;
+    first [ reflexivity
+          | rewrite setreg_other by (rewrite ?L; lia || assumption); reflexivity
+          | destruct H8 as [H8 | H8]; [| congruence];
+            rewrite setreg_other by (rewrite ?setreg7_len by exact L; lia || assumption);
+            rewrite setreg_other by (rewrite ?L; lia || assumption); reflexivity ] ].
+
+Section Discipline.
+  Variable H : bytes -> bytes.
+  Variable e : henv.
+
+  (* ================= hc_frame: registers ================= *)
+  Lemma acc_regs_frame c rg g m st : length rg = 13%nat ->
+    length (r_regs (acc_call H e c rg g m st)) = 13%nat /\
+    (forall i, i <> 7%nat -> (i <> 8%nat \/ c <> CQuery) -> nth i (r_regs (acc_call H e c rg g m st)) 0 = nth i rg 0).
+  Proof.
+    intros L. destruct c; hc_unfold; apply charged_ind; intros Hg; cbv zeta; hc_split; regs_tac L.
+  Qed.
+
+  Lemma ref_regs_frame c rg g m st : length rg = 13%nat ->
+    length (r_regs (ref_call e c rg g m st)) = 13%nat /\
+    (forall i, i <> 7%nat -> nth i (r_regs (ref_call e c rg g m st)) 0 = nth i rg 0).
+  Proof.
+    intros L. destruct c; hc_unfold; apply charged_ind; intros Hg; cbv zeta; hc_split;
+      (cbn [finish r_regs]; split;
+       [ first [ exact L | apply setreg7_len; exact L ]
+       | intros i H7; first [ reflexivity | rewrite setreg_other by (rewrite ?L; lia || assumption); reflexivity ] ]).
+  Qed.
+
+  (* ================= hc_write_after_check / hc_frame: memory ================= *)
+  (* the destination of a call: start register and the length register that bounds the write *)
+  Definition acc_dest (c : acall) (rg : list N) : option (N * N) :=
+    match c with
+    | CFetch => Some (reg rg 7, reg rg 9)
+    | CLookup => Some (reg rg 9, reg rg 11)
+    | CRead => Some (reg rg 10, reg rg 12)
+    | CInfo => Some (reg rg 8, reg rg 10)
+    | _ => None
+    end.
+  Definition ref_dest (c : rcall) (rg : list N) : option (N * N) :=
+    match c with
+    | RFetch => Some (reg rg 7, reg rg 9)
+    | RHist => Some (reg rg 9, reg rg 11)
+    | _ => None
+    end.
+  (* the register holding the offset into the value *)
+  Definition acc_off (c : acall) (rg : list N) : N :=
+    match c with CFetch => reg rg 8 | CLookup => reg rg 10 | CRead => reg rg 11 | CInfo => reg rg 9 | _ => 0 end.
+  Definition ref_off (c : rcall) (rg : list N) : N :=
+    match c with RFetch => reg rg 8 | RHist => reg rg 10 | _ => 0 end.
+
+  Ltac write_tac :=
+    cbn [finish r_write r_exit]; intros Hw;
+    first [ discriminate Hw
+          | injection Hw as <- <-;
+            split; [reflexivity |];
+            split; [rewrite slice_blen by apply win_fits; assumption |];
+            eexists; split; [reflexivity | rewrite slice_blen by apply win_fits; apply win_l_le] ].
+
+  Lemma acc_write_shape c rg g m st o d :
+    r_write (acc_call H e c rg g m st) = Some (o, d) ->
+    r_exit (acc_call H e c rg g m st) = EContinue /\ writable m o (blen d) = true /\
+    exists l, acc_dest c rg = Some (o, l) /\ blen d <= l.
+  Proof.
+    destruct c; hc_unfold; apply charged_ind; intros Hg; cbv zeta; hc_split; write_tac.
+  Qed.
+
+  Lemma ref_write_shape c rg g m st o d :
+    r_write (ref_call e c rg g m st) = Some (o, d) ->
+    r_exit (ref_call e c rg g m st) = EContinue /\ writable m o (blen d) = true /\
+    exists l, ref_dest c rg = Some (o, l) /\ blen d <= l.
+  Proof.
+    destruct c; hc_unfold; apply charged_ind; intros Hg; cbv zeta; hc_split; write_tac.
+  Qed.
+
+  Lemma acc_mem_frame c rg g m st :
+    (forall p, m_acc (mem_after m (acc_call H e c rg g m st)) p = m_acc m p) /\
+    (forall a, match acc_dest c rg with Some (o, l) => ~ (o <= a < o + l) | None => True end ->
+               m_byte (mem_after m (acc_call H e c rg g m st)) a = m_byte m a).
+  Proof.
+    unfold mem_after. destruct (r_write (acc_call H e c rg g m st)) as [[o d] |] eqn:E; [| split; reflexivity].
+    apply acc_write_shape in E as (_ & _ & l & Hd & Hl). rewrite Hd. split; [reflexivity |].
+    intros a Ha. apply mwrite_outside. lia.
+  Qed.
+
+  Lemma ref_mem_frame c rg g m st :
+    (forall p, m_acc (mem_after m (ref_call e c rg g m st)) p = m_acc m p) /\
+    (forall a, match ref_dest c rg with Some (o, l) => ~ (o <= a < o + l) | None => True end ->
+               m_byte (mem_after m (ref_call e c rg g m st)) a = m_byte m a).
+  Proof.
+    unfold mem_after. destruct (r_write (ref_call e c rg g m st)) as [[o d] |] eqn:E; [| split; reflexivity].
+    apply ref_write_shape in E as (_ & _ & l & Hd & Hl). rewrite Hd. split; [reflexivity |].
+    intros a Ha. apply mwrite_outside. lia.
+  Qed.
+
+  (* a call that does not continue (panic, out of gas) has written nothing and changed neither registers nor context *)
+  Lemma acc_stop_clean c rg g m st :
+    r_exit (acc_call H e c rg g m st) <> EContinue ->
+    r_write (acc_call H e c rg g m st) = None /\ r_regs (acc_call H e c rg g m st) = rg /\ r_ctx (acc_call H e c rg g m st) = st.
+  Proof.
+    destruct c; hc_unfold; apply charged_ind; intros Hg; cbv zeta; hc_split; cbn [finish r_write r_exit r_regs r_ctx];
+      intros Hx; try congruence; repeat split; reflexivity.
+  Qed.
+  Lemma ref_stop_clean c rg g m st :
+    r_exit (ref_call e c rg g m st) <> EContinue ->
+    r_write (ref_call e c rg g m st) = None /\ r_regs (ref_call e c rg g m st) = rg /\ r_ctx (ref_call e c rg g m st) = st.
+  Proof.
+    destruct c; hc_unfold; apply charged_ind; intros Hg; cbv zeta; hc_split; cbn [finish r_write r_exit r_regs r_ctx];
+      intros Hx; try congruence; repeat split; reflexivity.
+  Qed.
+
+  (* a call that delivers a value: when it continues with a length in register 7, exactly
+     min(l, |v| - min(f, |v|)) octets were written at the destination and that whole range was writable;
+     so an unwritable window can only end in a panic *)
+  Ltac value_tac L :=
+    cbn [finish r_write r_exit r_regs]; intros Hx Hn;
+    first [ discriminate Hx
+          | rewrite ?setreg_same in * by (rewrite L; lia);
+            first [ congruence
+                  | eexists; split; [reflexivity |];
+                    rewrite slice_blen by apply win_fits; split; [assumption | reflexivity] ] ].
+
+  Lemma acc_value_written c rg g m st o l : length rg = 13%nat ->
+    acc_dest c rg = Some (o, l) ->
+    r_exit (acc_call H e c rg g m st) = EContinue ->
+    nth 7 (r_regs (acc_call H e c rg g m st)) 0 <> NONE ->
+    exists d, r_write (acc_call H e c rg g m st) = Some (o, d) /\ writable m o (blen d) = true /\
+              blen d = N.min l (nth 7 (r_regs (acc_call H e c rg g m st)) 0 - N.min (acc_off c rg) (nth 7 (r_regs (acc_call H e c rg g m st)) 0)).
+  Proof.
+    intros L Hd. destruct c; cbn [acc_dest acc_off] in *; try discriminate Hd; injection Hd as <- <-;
+      hc_unfold; apply charged_ind; intros Hg; cbv zeta; hc_split; value_tac L.
+  Qed.
+
+  Lemma ref_value_written c rg g m st o l : length rg = 13%nat ->
+    ref_dest c rg = Some (o, l) ->
+    r_exit (ref_call e c rg g m st) = EContinue ->
+    nth 7 (r_regs (ref_call e c rg g m st)) 0 <> NONE ->
+    exists d, r_write (ref_call e c rg g m st) = Some (o, d) /\ writable m o (blen d) = true /\
+              blen d = N.min l (nth 7 (r_regs (ref_call e c rg g m st)) 0 - N.min (ref_off c rg) (nth 7 (r_regs (ref_call e c rg g m st)) 0)).
+  Proof.
+    intros L Hd. destruct c; cbn [ref_dest ref_off] in *; try discriminate Hd; injection Hd as <- <-;
+      hc_unfold; apply charged_ind; intros Hg; cbv zeta; hc_split; value_tac L.
+  Qed.
+
+  (* ================= hc_unreadable_panics_clean ================= *)
+  (* the input ranges a call requires *)
+  Definition acc_inputs (c : acall) (rg : list N) : list (N * N) :=
+    match c with
+    | CLookup => [(reg rg 8, 32)]
+    | CRead => [(reg rg 8, reg rg 9)]
+    | CWrite => [(reg rg 7, reg rg 8); (reg rg 9, reg rg 10)]
+    | CBless => [(reg rg 8, 4 * he_C e); (reg rg 11, 12 * reg rg 12)]
+    | CAssign => [(reg rg 8, 32 * he_Q e)]
+    | CDesignate => [(reg rg 7, 336 * he_V e)]
+    | CNew | CUpgrade | CQuery | CSolicit | CForget | CYield => [(reg rg 7, 32)]
+    | CTransfer => [(reg rg 10, W_T)]
+    | CEject => [(reg rg 8, 32)]
+    | CProvide => [(reg rg 8, reg rg 9)]
+    | _ => []
+    end.
+  Definition ref_inputs (c : rcall) (rg : list N) : list (N * N) :=
+    match c with
+    | RHist => [(reg rg 8, 32)]
+    | RExport => [(reg rg 7, N.min (reg rg 8) W_G)]
+    | _ => []
+    end.
+
+  Local Opaque N.mul.
+  Ltac unread_tac g Hg Hr :=
+    hc_unfold; unfold charged, host_gas;
+    destruct (Z.ltb_spec (g - 10) 0) as [Hlt | _]; [exfalso; apply (Z.lt_irrefl 0); eapply Z.le_lt_trans; [exact Hg | exact Hlt] |];
+    cbv zeta; rewrite ?Hr; cbn [negb orb finish];
+    first [ reflexivity
+          | match goal with |- context [if negb (readable ?mm ?oo ?ll) then _ else _] => destruct (readable mm oo ll) end;
+            cbn [negb finish]; rewrite ?Hr; cbn [negb finish]; reflexivity ].
+
+  Lemma acc_unreadable_panics c rg g m st o l :
+    (0 <= g - 10)%Z -> In (o, l) (acc_inputs c rg) -> readable m o l = false ->
+    acc_call H e c rg g m st = mkRes EPanic rg (g - 10)%Z None st.
+  Proof.
+    intros Hg Hin Hr. destruct c; unfold acc_inputs in Hin;
+      repeat match goal with
+             | Hh : In _ [] |- _ => destruct Hh
+             | Hh : In _ (_ :: _) |- _ => destruct Hh as [Hh | Hh]
+             | Hh : (_, _) = (_, _) |- _ => injection Hh as <- <-
+             end; unread_tac g Hg Hr.
+  Qed.
+
+  Lemma ref_unreadable_panics c rg g m st o l :
+    (0 <= g - 10)%Z -> In (o, l) (ref_inputs c rg) -> readable m o l = false ->
+    ref_call e c rg g m st = mkRes EPanic rg (g - 10)%Z None st.
+  Proof.
+    intros Hg Hin Hr. destruct c; unfold ref_inputs in Hin;
+      repeat match goal with
+             | Hh : In _ [] |- _ => destruct Hh
+             | Hh : In _ (_ :: _) |- _ => destruct Hh as [Hh | Hh]
+             | Hh : (_, _) = (_, _) |- _ => injection Hh as <- <-
+             end; unread_tac g Hg Hr.
+  Qed.
+
+  Local Transparent N.mul.
+
+  (* new additionally panics when the declared code length is not a 32-bit value *)
+  Lemma new_long_code_panics rg g m st :
+    (0 <= g - 10)%Z -> two32 <= reg rg 8 -> acc_call H e CNew rg g m st = mkRes EPanic rg (g - 10)%Z None st.
+  Proof.
+    intros Hg Hl. hc_unfold. unfold charged, host_gas. destruct (Z.ltb_spec (g - 10) 0); [lia |]. cbv zeta.
+    destruct (N.leb_spec two32 (reg rg 8)); [| lia]. rewrite orb_true_r. reflexivity.
+  Qed.
+
+  (* ================= hc_error_no_state_change ================= *)
+  Lemma not_error_small n : n < two32 -> ~ In n error_codes.
+  Proof.
+    unfold error_codes, NONE, WHAT, OOB, WHO, FULL, CORE, CASH, LOW, HUH, two64, two32. cbn [In]. lia.
+  Qed.
+  Lemma gas_word_small g : (0 <= g - 10)%Z -> (g < 2 ^ 63)%Z -> ~ In (gas_word (g - 10)) error_codes.
+  Proof.
+    intros A B. unfold gas_word, error_codes, NONE, WHAT, OOB, WHO, FULL, CORE, CASH, LOW, HUH, two64. cbn [In].
+    assert (Z.to_N (g - 10) < 9223372036854775808) by lia.
+    rewrite N.mod_small by lia. lia.
+  Qed.
+  Lemma with_base_same x : with_base x (x_base x) = x.
+  Proof. destruct x; reflexivity. Qed.
+  Lemma state_same (st : astate) : (with_base (fst st) (x_base (fst st)), snd st) = st.
+  Proof. rewrite with_base_same. destruct st; reflexivity. Qed.
+
+  (* the values a changed context can come with stay far below the codes on contexts of machine size *)
+  Definition acc_bounded (g : Z) (st : astate) : Prop :=
+    (g < 2 ^ 63)%Z /\ c_next (x_base (fst st)) < two32 /\
+    (forall s k v, get (he_self e) (c_accts (x_base (fst st))) = Some s ->
+                   al_get bytes_eqb k (a_storage s) = Some v -> blen v < two32).
+
+  Lemma acc_error_no_change c rg g m st : length rg = 13%nat -> acc_bounded g st ->
+    In (nth 7 (r_regs (acc_call H e c rg g m st)) 0) error_codes ->
+    ~ (c = CWrite /\ nth 7 (r_regs (acc_call H e c rg g m st)) 0 = NONE) ->
+    r_ctx (acc_call H e c rg g m st) = st.
+  Proof.
+    intros L (Bg & Bn & Bs).
+    destruct c; hc_unfold; apply charged_ind; intros Hg; cbv zeta; hc_split; cbn [finish r_regs r_ctx]; intros Hin Hnw;
+      try reflexivity;
+      rewrite ?setreg_same in Hin, Hnw by (rewrite L; lia);
+      try (exfalso; revert Hin; apply not_error_small; reflexivity);
+      try (exfalso; revert Hin; apply gas_word_small; assumption).
+    - (* write *)
+      destruct (call_write_ret _ _ _ _ _ _ _ Heqp) as [-> | [-> | (s & ov & Hs & Hov & ->)]].
+      + apply state_same.
+      + exfalso. apply Hnw. split; reflexivity.
+      + exfalso. revert Hin. apply not_error_small. cbn [code_of]. exact (Bs _ _ _ Hs Hov).
+    - (* new *)
+      destruct (call_new_ret _ _ _ _ _ _ _ _ _ _ _ Heqp) as [-> | [(-> & Hi) | ->]].
+      + apply state_same.
+      + exfalso. revert Hin. apply not_error_small. cbn [code_of]. unfold Smin, two32 in *. lia.
+      + exfalso. revert Hin. apply not_error_small. exact Bn.
+    - destruct (call_upgrade_ret _ _ _ _ _ _ _ Heqp) as [-> | ->];
+        [apply state_same | exfalso; revert Hin; apply not_error_small; reflexivity].
+    - destruct (call_eject_ret _ _ _ _ _ _ _ Heqp) as [-> | ->];
+        [apply state_same | exfalso; revert Hin; apply not_error_small; reflexivity].
+    - destruct (call_solicit_ret _ _ _ _ _ _ _ Heqp) as [-> | ->];
+        [apply state_same | exfalso; revert Hin; apply not_error_small; reflexivity].
+    - destruct (call_forget_ret _ _ _ _ _ _ Heqp) as [-> | ->];
+        [apply state_same | exfalso; revert Hin; apply not_error_small; reflexivity].
+  Qed.
+
+  Lemma ref_error_no_change c rg g m st : length rg = 13%nat ->
+    In (nth 7 (r_regs (ref_call e c rg g m st)) 0) error_codes ->
+    r_ctx (ref_call e c rg g m st) = st.
+  Proof.
+    intros L.
+    destruct c; hc_unfold; apply charged_ind; intros Hg; cbv zeta; hc_split; cbn [finish r_regs r_ctx]; intros Hin;
+      try reflexivity;
+      rewrite ?setreg_same in Hin by (rewrite L; lia).
+    exfalso. revert Hin. apply not_error_small.
+    match goal with Hb : (W_X <=? _) = false |- _ => apply N.leb_gt in Hb; unfold W_X, two32 in *; lia end.
+  Qed.
+
+  (* write: the only call whose status NONE accompanies a change (no previous value); a deletion of an absent key
+     (value length 0) still changes nothing *)
+
+  (* ================= hc_unknown_is_what ================= *)
+  Lemma unknown_result {C} rg g m (st : C) :
+    hc_unknown rg g m st =
+    if (g - 10 <? 0)%Z then mkRes EOOG rg (g - 10)%Z None st
+    else mkRes EContinue (setreg 7 WHAT rg) (g - 10)%Z None st.
+  Proof. reflexivity. Qed.
+End Discipline.
+
+Definition acc_defined : list N := [0; 1; 2; 3; 4; 5; 14; 15; 16; 17; 18; 19; 20; 21; 22; 23; 24; 25; 26; 100].
+Definition ref_defined : list N := [0; 1; 6; 7; 8; 9; 10; 11; 12; 13; 100].
+Definition auth_defined : list N := [0; 1; 100].
+
+Lemma acc_table_unknown id : acc_table id = CUnknown <-> ~ In id acc_defined.
+Proof.
+  unfold acc_table, acc_defined. cbn [In].
+  repeat match goal with |- context [?a =? ?b] => destruct (N.eqb_spec a b) end;
+    split; intros A; try discriminate; try reflexivity; try lia; exfalso; apply A; lia.
+Qed.
+Lemma ref_table_unknown id : ref_table id = Some RUnknown <-> ~ In id ref_defined.
+Proof.
+  unfold ref_table, ref_defined. cbn [In].
+  repeat match goal with |- context [?a =? ?b] => destruct (N.eqb_spec a b) end;
+    destruct (N.leb_spec 8 id); destruct (N.leb_spec id 13); cbn [andb];
+    split; intros A; try discriminate; try reflexivity; try lia; exfalso; apply A; lia.
+Qed.
+Lemma auth_table_unknown id : auth_table id = RUnknown <-> ~ In id auth_defined.
+Proof.
+  unfold auth_table, auth_defined. cbn [In].
+  repeat match goal with |- context [?a =? ?b] => destruct (N.eqb_spec a b) end;
+    split; intros A; try discriminate; try reflexivity; try lia; exfalso; apply A; lia.
+Qed.
+
+
+(* ------------------------------------------------------------------------------------------ *)
+(* hc_frame: the context fields each call may change *)
+Lemma upd_nth_other {A} (d v : A) : forall i k (l : list A), k <> i -> nth k (upd_nth i v l) d = nth k l d.
+Proof.
+  induction i; intros k l Hk; destruct l as [| x l]; cbn [upd_nth nth]; try reflexivity.
+  - destruct k; [congruence | reflexivity].
+  - destruct k; [reflexivity | apply IHi; congruence].
+Qed.
+
+Section CtxFrame.
+  Variable H : bytes -> bytes.
+  Variable e : henv.
+
+  (* nothing but the service-account part (accounts, deferred transfers, next identifier) differs *)
+  Definition only_base (x x' : actx) : Prop :=
+    x_privs x' = x_privs x /\ x_authq x' = x_authq x /\ x_valkeys x' = x_valkeys x /\
+    x_yield x' = x_yield x /\ x_provided x' = x_provided x.
+
+  Definition acc_ctx_frame (c : acall) (rg : list N) (st st' : astate) : Prop :=
+    let x := fst st in let x' := fst st' in let b := x_base x in let b' := x_base x' in
+    match c with
+    | CGas | CFetch | CLookup | CRead | CInfo | CLog | CQuery | CUnknown => st' = st
+    | CCheckpoint => st' = st \/ st' = (x, x)
+    | CWrite | CSolicit | CForget | CUpgrade =>
+      snd st' = snd st /\ only_base x x' /\ c_xfers b' = c_xfers b /\ c_next b' = c_next b /\ outside [he_self e] b b'
+    | CTransfer =>
+      snd st' = snd st /\ only_base x x' /\ c_next b' = c_next b /\ outside [he_self e] b b' /\
+      (c_xfers b' = c_xfers b \/
+       exists memo, c_xfers b' = c_xfers b ++ [mkXfer (he_self e) (reg rg 7) (reg rg 8) memo (reg rg 9)])
+    | CEject =>
+      snd st' = snd st /\ only_base x x' /\ c_xfers b' = c_xfers b /\ c_next b' = c_next b /\
+      outside [he_self e; reg rg 7] b b'
+    | CNew =>
+      snd st' = snd st /\ only_base x x' /\ c_xfers b' = c_xfers b /\ outside [he_self e; reg rg 12; c_next b] b b'
+    | CBless =>
+      snd st' = snd st /\ b' = b /\ x_authq x' = x_authq x /\ x_valkeys x' = x_valkeys x /\
+      x_yield x' = x_yield x /\ x_provided x' = x_provided x
+    | CAssign =>
+      snd st' = snd st /\ b' = b /\ x_valkeys x' = x_valkeys x /\ x_yield x' = x_yield x /\ x_provided x' = x_provided x /\
+      p_manager (x_privs x') = p_manager (x_privs x) /\ p_designator (x_privs x') = p_designator (x_privs x) /\
+      p_registrar (x_privs x') = p_registrar (x_privs x) /\ p_always (x_privs x') = p_always (x_privs x) /\
+      (forall k, k <> N.to_nat (reg rg 7) ->
+                 nth k (p_assigners (x_privs x')) 0 = nth k (p_assigners (x_privs x)) 0 /\
+                 nth k (x_authq x') [] = nth k (x_authq x) [])
+    | CDesignate =>
+      snd st' = snd st /\ b' = b /\ x_privs x' = x_privs x /\ x_authq x' = x_authq x /\
+      x_yield x' = x_yield x /\ x_provided x' = x_provided x
+    | CYield =>
+      snd st' = snd st /\ b' = b /\ x_privs x' = x_privs x /\ x_authq x' = x_authq x /\
+      x_valkeys x' = x_valkeys x /\ x_provided x' = x_provided x
+    | CProvide =>
+      snd st' = snd st /\ b' = b /\ x_privs x' = x_privs x /\ x_authq x' = x_authq x /\
+      x_valkeys x' = x_valkeys x /\ x_yield x' = x_yield x /\
+      (x_provided x' = x_provided x \/ exists p, x_provided x' = x_provided x ++ [p])
+    end.
+
+  Ltac same_tac :=
+    cbn [finish r_ctx fst snd]; unfold only_base;
+    repeat split;
+    first [ reflexivity | apply outside_refl | left; reflexivity | intros; split; reflexivity ].
+
+  Lemma acc_ctx_frame_holds c rg g m st : acc_ctx_frame c rg st (r_ctx (acc_call H e c rg g m st)).
+  Proof.
+    destruct c; unfold acc_ctx_frame; hc_unfold; apply charged_ind; intros Hg; cbv zeta; hc_split; try solve [same_tac];
+      cbn [finish r_ctx fst snd with_base x_base x_privs x_authq x_valkeys x_yield x_provided
+           p_manager p_assigners p_designator p_registrar p_always]; unfold only_base;
+      cbn [x_base x_privs x_authq x_valkeys x_yield x_provided].
+    - (* write *)
+      destruct (call_write_frame _ _ _ _ _ _ _ Heqp) as (A & B & C). repeat split; assumption.
+    - (* assign *)
+      repeat split; apply upd_nth_other; assumption.
+    - (* checkpoint *)
+      right. reflexivity.
+    - (* new *)
+      destruct (call_new_frame _ _ _ _ _ _ _ _ _ _ _ Heqp) as (A & B). repeat split; assumption.
+    - (* upgrade *)
+      destruct (call_upgrade_frame _ _ _ _ _ _ _ Heqp) as (A & B & C). repeat split; assumption.
+    - (* transfer *)
+      destruct (call_transfer_frame _ _ _ _ _ _ _ _ _ Heqp) as (A & B & C). repeat split; try assumption.
+      destruct A as [A | A]; [left; exact A | right; eexists; exact A].
+    - (* eject *)
+      destruct (call_eject_frame _ _ _ _ _ _ _ Heqp) as (A & B & C). repeat split; assumption.
+    - (* solicit *)
+      destruct (call_solicit_frame _ _ _ _ _ _ _ Heqp) as (A & B & C). repeat split; assumption.
+    - (* forget *)
+      destruct (call_forget_frame _ _ _ _ _ _ Heqp) as (A & B & C). repeat split; assumption.
+    - (* provide *)
+      repeat split. right. eexists. reflexivity.
+  Qed.
+
+  Definition ref_ctx_frame (c : rcall) (st st' : rctx) : Prop :=
+    match c with
+    | RExport => rc_exports st' = rc_exports st \/ exists seg, rc_exports st' = rc_exports st ++ [seg] /\ blen seg = W_G
+    | _ => st' = st
+    end.
+
+  Lemma ref_ctx_frame_holds c rg g m st : ref_ctx_frame c st (r_ctx (ref_call e c rg g m st)).
+  Proof.
+    destruct c; unfold ref_ctx_frame; hc_unfold; apply charged_ind; intros Hg; cbv zeta; hc_split;
+      cbn [finish r_ctx rc_exports]; try reflexivity; try (left; reflexivity).
+    right. eexists. split; [reflexivity |].
+    unfold blen, zeros. rewrite app_length, mread_length, repeat_length. unfold W_G. lia.
+  Qed.
+End CtxFrame.
+
+(* ------------------------------------------------------------------------------------------ *)
+(* the statements of Properties/C07.v, assembled *)
+Lemma hc_frame_acc H e c rg g m st : length rg = 13%nat ->
+  (length (r_regs (acc_call H e c rg g m st)) = 13%nat /\
+   forall i, i <> 7%nat -> (i <> 8%nat \/ c <> CQuery) -> nth i (r_regs (acc_call H e c rg g m st)) 0 = nth i rg 0) /\
+  ((forall p, m_acc (mem_after m (acc_call H e c rg g m st)) p = m_acc m p) /\
+   (forall a, match acc_dest c rg with Some (o, l) => ~ (o <= a < o + l) | None => True end ->
+              m_byte (mem_after m (acc_call H e c rg g m st)) a = m_byte m a)) /\
+  acc_ctx_frame e c rg st (r_ctx (acc_call H e c rg g m st)).
+Proof.
+  intros L. split; [apply acc_regs_frame; exact L | split; [apply acc_mem_frame | apply acc_ctx_frame_holds]].
+Qed.
+
+Lemma hc_frame_ref e c rg g m st : length rg = 13%nat ->
+  (length (r_regs (ref_call e c rg g m st)) = 13%nat /\
+   forall i, i <> 7%nat -> nth i (r_regs (ref_call e c rg g m st)) 0 = nth i rg 0) /\
+  ((forall p, m_acc (mem_after m (ref_call e c rg g m st)) p = m_acc m p) /\
+   (forall a, match ref_dest c rg with Some (o, l) => ~ (o <= a < o + l) | None => True end ->
+              m_byte (mem_after m (ref_call e c rg g m st)) a = m_byte m a)) /\
+  ref_ctx_frame c st (r_ctx (ref_call e c rg g m st)).
+Proof.
+  intros L. split; [apply ref_regs_frame; exact L | split; [apply ref_mem_frame | apply ref_ctx_frame_holds]].
+Qed.
+
+(* written => the whole written range was writable (pointwise: every address of it lies below 2^32 on a
+   read-write page), it starts at the destination register and is no longer than the length register;
+   not continuing => nothing written, registers and context as before;
+   continuing with a length => exactly the window was written *)
+Lemma hc_write_after_check_acc H e c rg g m st : length rg = 13%nat ->
+  (forall o d, r_write (acc_call H e c rg g m st) = Some (o, d) ->
+     r_exit (acc_call H e c rg g m st) = EContinue /\ range_spec can_write m o (blen d) /\
+     exists l, acc_dest c rg = Some (o, l) /\ blen d <= l) /\
+  (r_exit (acc_call H e c rg g m st) <> EContinue ->
+     r_write (acc_call H e c rg g m st) = None /\ r_regs (acc_call H e c rg g m st) = rg /\
+     r_ctx (acc_call H e c rg g m st) = st) /\
+  (forall o l, acc_dest c rg = Some (o, l) -> r_exit (acc_call H e c rg g m st) = EContinue ->
+     nth 7 (r_regs (acc_call H e c rg g m st)) 0 <> NONE ->
+     exists d, r_write (acc_call H e c rg g m st) = Some (o, d) /\ range_spec can_write m o (blen d) /\
+       blen d = N.min l (nth 7 (r_regs (acc_call H e c rg g m st)) 0 -
+                         N.min (acc_off c rg) (nth 7 (r_regs (acc_call H e c rg g m st)) 0))).
+Proof.
+  intros L. split; [| split].
+  - intros o d Hw. destruct (acc_write_shape H e c rg g m st o d Hw) as (A & B & C).
+    split; [exact A | split; [apply writable_spec; exact B | exact C]].
+  - apply acc_stop_clean.
+  - intros o l Hd Hx Hn. destruct (acc_value_written H e c rg g m st o l L Hd Hx Hn) as (d & A & B & C).
+    exists d. split; [exact A | split; [apply writable_spec; exact B | exact C]].
+Qed.
+
+Lemma hc_write_after_check_ref e c rg g m st : length rg = 13%nat ->
+  (forall o d, r_write (ref_call e c rg g m st) = Some (o, d) ->
+     r_exit (ref_call e c rg g m st) = EContinue /\ range_spec can_write m o (blen d) /\
+     exists l, ref_dest c rg = Some (o, l) /\ blen d <= l) /\
+  (r_exit (ref_call e c rg g m st) <> EContinue ->
+     r_write (ref_call e c rg g m st) = None /\ r_regs (ref_call e c rg g m st) = rg /\
+     r_ctx (ref_call e c rg g m st) = st) /\
+  (forall o l, ref_dest c rg = Some (o, l) -> r_exit (ref_call e c rg g m st) = EContinue ->
+     nth 7 (r_regs (ref_call e c rg g m st)) 0 <> NONE ->
+     exists d, r_write (ref_call e c rg g m st) = Some (o, d) /\ range_spec can_write m o (blen d) /\
+       blen d = N.min l (nth 7 (r_regs (ref_call e c rg g m st)) 0 -
+                         N.min (ref_off c rg) (nth 7 (r_regs (ref_call e c rg g m st)) 0))).
+Proof.
+  intros L. split; [| split].
+  - intros o d Hw. destruct (ref_write_shape e c rg g m st o d Hw) as (A & B & C).
+    split; [exact A | split; [apply writable_spec; exact B | exact C]].
+  - apply ref_stop_clean.
+  - intros o l Hd Hx Hn. destruct (ref_value_written e c rg g m st o l L Hd Hx Hn) as (d & A & B & C).
+    exists d. split; [exact A | split; [apply writable_spec; exact B | exact C]].
+Qed.
+
+(* an input range that is not wholly readable (pointwise: some address of it is at or above 2^32 or on an
+   inaccessible page) *)
+Lemma hc_unreadable_panics_clean_acc H e c rg g m st o l :
+  (0 <= g - 10)%Z -> In (o, l) (acc_inputs e c rg) -> ~ range_spec can_read m o l ->
+  acc_call H e c rg g m st = mkRes EPanic rg (g - 10)%Z None st.
+Proof.
+  intros Hg Hin Hr. apply (acc_unreadable_panics H e c rg g m st o l Hg Hin).
+  destruct (readable m o l) eqn:E; [| reflexivity]. exfalso. apply Hr. apply readable_spec. exact E.
+Qed.
+Lemma hc_unreadable_panics_clean_ref e c rg g m st o l :
+  (0 <= g - 10)%Z -> In (o, l) (ref_inputs c rg) -> ~ range_spec can_read m o l ->
+  ref_call e c rg g m st = mkRes EPanic rg (g - 10)%Z None st.
+Proof.
+  intros Hg Hin Hr. apply (ref_unreadable_panics e c rg g m st o l Hg Hin).
+  destruct (readable m o l) eqn:E; [| reflexivity]. exfalso. apply Hr. apply readable_spec. exact E.
+Qed.
+
+Lemma hc_unknown_is_what :
+  (forall id, acc_table id = CUnknown <-> ~ In id acc_defined) /\
+  (forall id, ref_table id = Some RUnknown <-> ~ In id ref_defined) /\
+  (forall id, auth_table id = RUnknown <-> ~ In id auth_defined) /\
+  (forall (C : Type) rg g m (st : C), length rg = 13%nat ->
+     ((0 <= g - 10)%Z ->
+        r_exit (hc_unknown rg g m st) = EContinue /\ r_gas (hc_unknown rg g m st) = (g - 10)%Z /\
+        nth 7 (r_regs (hc_unknown rg g m st)) 0 = WHAT /\
+        (forall i, i <> 7%nat -> nth i (r_regs (hc_unknown rg g m st)) 0 = nth i rg 0) /\
+        r_write (hc_unknown rg g m st) = None /\ r_ctx (hc_unknown rg g m st) = st) /\
+     ((g - 10 < 0)%Z -> hc_unknown rg g m st = mkRes EOOG rg (g - 10)%Z None st)).
+Proof.
+  split; [exact acc_table_unknown | split; [exact ref_table_unknown | split; [exact auth_table_unknown |]]].
+  intros C rg g m st L. rewrite unknown_result. split; intros Hg.
+  - destruct (Z.ltb_spec (g - 10) 0); [lia |]. cbn [r_exit r_gas r_regs r_write r_ctx].
+    repeat split.
+    + apply setreg_same. rewrite L. lia.
+    + intros i Hi. apply setreg_other; [rewrite L; lia | exact Hi].
+  - destruct (Z.ltb_spec (g - 10) 0); [reflexivity | lia].
+Qed.
+
+(* the identifier classes of the property: undefined small, refine calls in the accumulate table, everything above 100
+   (so every identifier > 255 and every sign-extended immediate) *)
+Lemma acc_unknown_classes id :
+  (6 <= id <= 13 \/ 27 <= id <= 99 \/ 101 <= id) -> acc_table id = CUnknown.
+Proof.
+  intros Hc. apply acc_table_unknown. unfold acc_defined. cbn [In]. lia.
+Qed.
+Lemma ref_unknown_classes id :
+  (2 <= id <= 5 \/ 14 <= id <= 99 \/ 101 <= id) -> ref_table id = Some RUnknown.
+Proof.
+  intros Hc. apply ref_table_unknown. unfold ref_defined. cbn [In]. lia.
+Qed.
+Lemma auth_unknown_classes id :
+  (2 <= id <= 99 \/ 101 <= id) -> auth_table id = RUnknown.
+Proof.
+  intros Hc. apply auth_table_unknown. unfold auth_defined. cbn [In]. lia.
+Qed.
